@@ -289,6 +289,13 @@ class AlignmentCollector:
         else:
             assignment_storage = self.process_genic(alignment_storage, gene_info, current_region)
 
+        if self.params.needs_reference and assignment_storage:
+            # a piece of a split region also gets the reads that reach beyond it: the reference window has to cover all of them
+            reads_start = min(a.exons[0][0] for a in assignment_storage)
+            reads_end = max(a.exons[-1][1] for a in assignment_storage)
+            if reads_start < gene_info.all_read_region_start or reads_end > gene_info.all_read_region_end:
+                gene_info.set_reference_sequence(min(reads_start, gene_info.all_read_region_start),
+                                                 max(reads_end, gene_info.all_read_region_end), self.chr_record)
         return gene_info, assignment_storage
 
     def process_intergenic(self, alignment_storage, region):
